@@ -283,7 +283,7 @@ unsafe fn first_undelivered(len: usize) -> usize {
 
 const ALL: u8 = 0b111111;
 
-// @verif family=IND hook=1 quick=C01,C02,C03,C04,C05,C06,C09,C11 timeout=600
+// @verif family=IND hook=1 quick=C01,C02,C03,C04,C05,C06,C09,C11 timeout=1800
 // @bounds kind=&[u8] len<=4 symbolic contents; counter c in [0,2^62]; one op in {next,next_id_and_value,next_chunk(n),buffered_iter(n).next(),skip_to_end,try_get_len/has_more}; n in [1,2^20]
 #[kani::proof]
 #[kani::unwind(7)]
@@ -296,7 +296,7 @@ fn ind_slice() {
     ind_step(&it, len, ALL, |r: &u8| pos_in(src, r));
 }
 
-// @verif family=IND hook=1 quick=C01,C02,C03,C04,C05,C06,C09,C11 timeout=600
+// @verif family=IND hook=1 quick=C01,C02,C03,C04,C05,C06,C09,C11 timeout=1800
 // @bounds kind=Range<usize> start<=2^62 symbolic, len<=4; counter c in [0,2^62]; one op as ind_slice; n in [1,2^20]
 #[kani::proof]
 #[kani::unwind(7)]
@@ -324,7 +324,7 @@ fn inductive_ledger(len: usize, c: usize) {
     }
 }
 
-// @verif family=IND hook=1 quick=C01,C02,C03,C04,C05,C08,C09 thorough=C06,C11 timeout=900
+// @verif family=IND hook=1 quick=C01,C02,C03,C04,C05,C08,C09 thorough=C06,C11 timeout=1800
 // @bounds kind=Vec<Tracked> len<=4 (capacity 5); counter c in [0,2^62]; one op as ind_slice; n in [1,2^20]; then drop, with the inductive drop ledger
 #[kani::proof]
 #[kani::unwind(7)]
@@ -343,7 +343,7 @@ fn ind_vec() {
     inductive_ledger(len, c);
 }
 
-// @verif family=IND hook=1 quick=C01,C02,C03,C04,C05,C08,C09 thorough=C06,C11 timeout=900
+// @verif family=IND hook=1 quick=C01,C02,C03,C04,C05,C08,C09 thorough=C06,C11 timeout=1800
 // @bounds kind=[Tracked;4]; counter c in [0,2^62]; one op as ind_slice; n in [1,2^20]; then drop
 #[kani::proof]
 #[kani::unwind(7)]
@@ -355,7 +355,7 @@ fn ind_array() {
     inductive_ledger(4, c);
 }
 
-// @verif family=IND hook=1 quick=C13,C01,C02 thorough=C03,C04,C05 timeout=600
+// @verif family=IND hook=1 quick=C13,C01,C02 thorough=C03,C04,C05 timeout=1800
 // @bounds kind=Cloned<ConIterOfSlice<Cl>> len<=4; counter c in [0,2^62]; one op as ind_slice; n in [1,2^20]; clone ledger
 #[kani::proof]
 #[kani::unwind(7)]
@@ -377,7 +377,7 @@ fn ind_cloned() {
     }
 }
 
-// @verif family=IND hook=1 quick=C13,C01,C02 thorough=C03,C04,C05 timeout=600
+// @verif family=IND hook=1 quick=C13,C01,C02 thorough=C03,C04,C05 timeout=1800
 // @bounds kind=Copied<ConIterOfSlice<usize>> len<=4, contents = position; counter c in [0,2^62]; one op as ind_slice; n in [1,2^20]
 #[kani::proof]
 #[kani::unwind(7)]
@@ -390,7 +390,7 @@ fn ind_copied() {
     ind_step(&it, len, ALL, |v: usize| v);
 }
 
-// @verif family=IND hook=1 quick=C01,C04,C05 timeout=120
+// @verif family=IND hook=1 quick=C01,C04,C05 timeout=1800
 // @bounds pure integers: c <= 2^62, n <= 2^20+1, len arbitrary: the induction step delivered(c) ∪ [c, min(c+n,len)) = delivered(c+n), disjoint, no wrap
 #[kani::proof]
 fn ind_lemma() {
